@@ -53,6 +53,12 @@ def r2_coverage(cx):
         calls = find_calls(lp[0].body, name="write_to_disk") if lp else []
         ok = ok and len(calls) == 1 and U(calls[0].args[0]) == U(lp[0].target) and kwarg(calls[0], "delete") is not None and U(kwarg(calls[0], "delete")) == "True" and not guard_texts(calls[0], stop=lp[0])
         cx.require(ok, dfn, "%s removes every path of %s, unconditionally and without early exit" % (d, other), construct=short(lp[0], 120) if lp else "def %s" % d)
+        # a removal that fails (anything but 'no such file', which write_to_disk itself swallows) must reach the writer: it must not go on and
+        # write the opposite marker next to the one that could not be removed
+        for c_ in calls:
+            tr_ = enclosing(c_, ast.Try)
+            sw = [h for h in (tr_.handlers if tr_ is not None and any(c_ is x for st_ in tr_.body for x in ast.walk(st_)) else []) if not (h.body and isinstance(h.body[-1], ast.Raise))]
+            cx.require(not sw, sw[0] if sw else c_, "%s lets a failed removal propagate (no handler swallows it)" % d, construct=short(sw[0], 100) if sw else short(c_))
         wfn = m.func(w, "C17.R2")
         wl = [s for s in wfn.body if isinstance(s, ast.For)]
         ok = len(wl) == 1 and U(wl[0].iter) == mine and not feat.loop_exits(wl[0])
